@@ -16,6 +16,7 @@ package main
 
 import (
 	"bytes"
+	"crypto/tls"
 	"crypto/x509"
 	"encoding/pem"
 	"errors"
@@ -60,6 +61,7 @@ type envCase struct {
 	skip     bool
 	group    string // "" = none
 	usc      bool   // pass a non-nil UnixSocketConfig even without a group
+	tlsc     bool   // the caller also supplies a (non-nil) ClientConfig.TLSConfig
 	preset   []string
 	pstdin   bool // config.Cmd.Stdin pre-set to something else
 	host     []string
@@ -87,15 +89,15 @@ func (c *envCase) line(minp, maxp uint) string {
 	if c.group != "" {
 		g = hxs(c.group)
 	}
-	return fmt.Sprintf("C17.%s ck=%s cv=%s minp=%d maxp=%d versions=%s mux=%s mtls=%s skip=%s group=%s preset=%s host=%s pstdin=%s gminp=%d gmaxp=%d vp=%s legacy=%s pv=%d usc=%s",
+	return fmt.Sprintf("C17.%s ck=%s cv=%s minp=%d maxp=%d versions=%s mux=%s mtls=%s skip=%s group=%s preset=%s host=%s pstdin=%s gminp=%d gmaxp=%d vp=%s legacy=%s pv=%d usc=%s tlsc=%s",
 		c.mode, hxs(c.ck), hxs(c.cv), minp, maxp, joinInts(c.offered()), b01(c.mux), b01(c.mtls), b01(c.skip),
-		g, joinStrsHex(c.preset), joinStrsHex(c.host), b01(c.pstdin), c.gminp, c.gmaxp, joinInts(c.vp), b01(c.legacy), c.pv, b01(c.usc))
+		g, joinStrsHex(c.preset), joinStrsHex(c.host), b01(c.pstdin), c.gminp, c.gmaxp, joinInts(c.vp), b01(c.legacy), c.pv, b01(c.usc), b01(c.tlsc))
 }
 
 func envCaseFromLine(tag string, m map[string]string) *envCase {
 	c := &envCase{mode: "runner", ck: string(unhx(m["ck"])), cv: string(unhx(m["cv"])),
 		mux: m["mux"] == "1", mtls: m["mtls"] == "1", skip: m["skip"] == "1", pstdin: m["pstdin"] == "1",
-		legacy: m["legacy"] == "1", usc: m["usc"] == "1", hostName: "replay"}
+		legacy: m["legacy"] == "1", usc: m["usc"] == "1", tlsc: m["tlsc"] == "1", hostName: "replay"}
 	if i := strings.IndexByte(tag, '.'); i >= 0 {
 		c.mode = tag[i+1:]
 	}
@@ -226,6 +228,9 @@ func runEnvCase(c *envCase, idx int, work, exe string) (caseLine, impl, pred str
 		}
 		if c.group != "" || c.usc {
 			cfg.UnixSocketConfig = &plugin.UnixSocketConfig{Group: c.group}
+		}
+		if c.tlsc {
+			cfg.TLSConfig = &tls.Config{ServerName: "localhost"}
 		}
 		switch c.mode {
 		case "runner":
@@ -759,7 +764,7 @@ func c17Generate(r *rng, gid string, nRandom int, allChildren bool) []*envCase {
 		s := c17Secondaries(idx)
 		idx++
 		c := &envCase{mode: mode, ck: s.ck, cv: s.cv, gminp: s.minp, gmaxp: s.maxp, vp: s.vp, legacy: s.legacy, pv: s.pv,
-			mux: bits&1 != 0, mtls: bits&2 != 0, skip: bits&8 != 0, usc: idx%2 == 0, pstdin: pstdin,
+			mux: bits&1 != 0, mtls: bits&2 != 0, skip: bits&8 != 0, usc: idx%2 == 0, tlsc: idx%3 == 0, pstdin: pstdin,
 			preset: c17Subst(preset, s.ck), host: c17Subst(h.env, s.ck), hostName: h.name}
 		if bits&4 != 0 {
 			c.group = gid
